@@ -35,7 +35,8 @@ def vec_case(draw, ndim=(1, 4), nmin=1, nvdim=None, full_valid=False, bc_ok=True
     return {"g": g, "k": k, "vdims": vd, "perm": perm, "bc": bc,
             "coef": [[draw(st.integers(-3, 3)) for _ in range(ncoef)] for _ in range(k)],
             "seed": draw(st.integers(0, 2**31)), "data": draw(st.sampled_from(["poly", "random"])),
-            "mask": ["all"] if full_valid else draw(gen.mask_spec(nd)), "labels": labels}
+            "mask": ["all"] if full_valid else draw(gen.mask_spec(nd)), "labels": labels,
+            "offset": draw(st.sampled_from([0, 0, 0, 1e7, -8e8, 3e5]))}
 
 
 def mapping_of(case, dims):
@@ -120,6 +121,9 @@ def build(case, with_mapping=True):
         kw["vdims"] = list(case["vdims"])
     if with_mapping and k == nd and (k > 1 or case["vdims"]):
         kw["vdim_mapping"] = mapping_of(case, dims)
+    if case.get("offset"):
+        # a large constant part (Ms, a far-away coordinate field): the derivatives are those of the polynomial
+        arr = arr + case["offset"]
     f = df.Field(mesh, nvdim=k, value=arr, valid=gen.make_mask(case["mask"], n),
                  dtype=np.complex128 if case.get("complex") else None, **kw)
     return mesh, dims, f, arr, d1, d2
